@@ -200,6 +200,80 @@ def v2_parse_frame(ctx):
         r.add(f, "D-len: consumed length = Cursor::position after check", ok, where(b, abb), "" if ok else detail)
         tgt = arg_path(b, at, 0)
         r.add(f, "consumes from self.buffer", tgt == "self.buffer", where(b, abb), "advance on %s" % tgt)
+        # every Ok(Some) path consumed the frame
+        classes = {c for c, d, rb in ret_classes(b, okb, lambda e: e.kind == "unwind" or (e.src == abb and e.kind == "ret"))}
+        leak = [c for c in classes if c not in ("err", "unwind")]
+        r.add(f, "every path that returns the frame consumed exactly its bytes (advance on all Ok paths)", not leak, where(b, abb), "" if not leak else "a frame can be returned while the buffer is handled differently (bytes of following frames lost or the frame parsed twice)")
+    # the read buffer is never replaced: unconsumed bytes of following frames live there
+    for cb in shipped_bodies(ctx.prog):
+        if cb.name.endswith("Connection::new") or not cb.name.startswith("net::connection::"):
+            continue
+        for bb in sorted(cb.live_blocks()):
+            for st in cb.blocks[bb]["stmts"]:
+                if st["k"] == "assign" and st["pl"]["p"] and st["pl"]["p"][-1][0] == "f" and st["pl"]["p"][-1][2] == "buffer" and "Connection" in cb.local_ty(st["pl"]["l"]):
+                    r.bad(fam_name(cb), "self.buffer is replaced", short_span(st.get("span")), "the read buffer holds the unconsumed bytes of pipelined frames; replacing it drops them")
+            t = cb.term(bb)
+            if t["k"] == "call" and is_call_to(t, "bytes::BytesMut::clear", "bytes::BytesMut::truncate", "bytes::BytesMut::split", "bytes::BytesMut::split_to", "bytes::BytesMut::split_off", "std::mem::take", "std::mem::replace") and (arg_path(cb, t, 0) or "").endswith("self.buffer"):
+                r.bad(fam_name(cb), "%s on self.buffer" % strip_generics(t["callee"]).split("::")[-1], where(cb, bb), "buffered bytes are discarded other than by consuming a checked frame")
+    return r
+
+
+def v6_write_frame_flushes(ctx):
+    r = RuleResult("V6", "Connection::write_frame: every Ok return wrote the frame (write_array / write_single_value, error propagated) and then flushed the stream with the flush result on its Ok edge, unconditionally — a reply never waits in the write buffer for later traffic", floor=2)
+    from asyncx import ready_edges
+    from k2s import try_edges_awaited
+
+    fam = ctx.prog.family("net::connection::Connection::write_frame")
+    b = None
+    for x in fam:
+        if calls_in([x], "net::connection::Connection::write_single_value"):
+            b = x
+    f = "net::connection::Connection::write_frame"
+    if b is None:
+        r.unrec(f, "body", "src/net/connection.rs", "not found")
+        return r
+    r.analysed = [b.path]
+    ws = calls_in([b], "net::connection::Connection::write_single_value", "net::connection::Connection::write_array")
+    fl = [(bb, t) for _, bb, t in calls_in([b], "tokio::io::AsyncWriteExt::flush") if (arg_path(b, t, 0) or "").endswith("self.stream")]
+    wok = set()
+    for _, bb, t in ws:
+        ok, err, sw = try_edges_awaited(b, bb)
+        wok |= ok
+    fok = set()
+    for bb, t in fl:
+        ok, err, sw = try_edges_awaited(b, bb)
+        fok |= ok
+    c1 = {c for c, d, rb in ret_classes(b, 0, lambda e: e.kind in ("unwind", "ydrop") or (e.src, e.dst) in wok)}
+    r.add(f, "every Ok return wrote the frame (Ok edge of the writer)", bool(wok) and "ok" not in c1, short_span(b.span))
+    c2 = {c for c, d, rb in ret_classes(b, 0, lambda e: e.kind in ("unwind", "ydrop") or (e.src, e.dst) in fok)}
+    p = None
+    r.add(f, "every Ok return flushed the stream (flush awaited, Ok edge) — unconditionally", bool(fok) and "ok" not in c2, where(b, fl[0][0]) if fl else short_span(b.span), "" if (fok and "ok" not in c2) else "write_frame can return Ok with the reply still in the BufWriter")
+    # flush after the writes
+    for bb, t in fl:
+        before = all(bb in reach(b, [wb], blocked_edges=lambda e: e.kind in ("unwind", "ydrop")) for _, wb, _ in ws)
+        r.add(f, "flush follows the writes", before, where(b, bb))
+    return r
+
+
+def kdec_decimal_buffer(ctx):
+    r = RuleResult("K-dec", "Connection::write_decimal formats into a stack buffer whose length (read from the local's array type) is at least 20, the widest rendering of an i64 (\"-9223372036854775808\")", floor=1)
+    fam = ctx.prog.family("net::connection::Connection::write_decimal")
+    import re
+
+    found = False
+    for b in fam:
+        for i, l in enumerate(b.locals):
+            m = re.match(r"^\[u8; (\d+)\]$", l["ty"])
+            if m and l.get("user"):
+                found = True
+                n = int(m.group(1))
+                r.add("net::connection::Connection::write_decimal", "scratch buffer [u8; %d] ≥ 20" % n, n >= 20, short_span(b.span), "" if n >= 20 else "i64::MIN needs 20 bytes; write! into a shorter buffer fails with WriteZero after the type byte was already queued")
+        # heap idioms are fine
+        if calls_in([b], "std::string::ToString::to_string", "alloc::fmt::format", "std::fmt::format", "itoa::Buffer::new"):
+            found = True
+            r.ok("net::connection::Connection::write_decimal", "growable / library formatting buffer", short_span(b.span))
+    if not found:
+        r.unrec("net::connection::Connection::write_decimal", "formatting buffer", "src/net/connection.rs", "no [u8; N] scratch buffer and no known growable idiom found")
     return r
 
 
